@@ -17,9 +17,16 @@ KNOWN_TORIGIN = 'transform-origin-sign'
 KNOWN_ARC = 'path-arc-huge'
 # svgtypes (external crate): registered in round 4
 KNOWN_TORIGIN_EXP = 'transform-origin-dangling-exponent'
+# found while re-deriving the time budget (session 4): text layout costs ~150-200 us per text element and `use` expansion
+# multiplies text elements up to the node limit
+KNOWN_TEXTBOMB = 'text-use-expansion'
+TEXTBOMB_MIN = 50000        # expanded text elements: 50 000 x 150 us = 7.5 s of text layout
 # witnesses of fixed findings (fixes 0f46e14: nested marker instances are limited; 7272c32: no stroker for coordinates beyond
-# 1e18): must parse within the budget, whatever a class predicate says about the document
-MUST_PASS = ('C01-fanout-marker.svg', 'C01-marker-bomb-k14.svg', 'C01-stroked-quad-huge.svg', 'C01-stroked-text-huge-font.svg')
+# 1e18; 728fa22: the elements copied by marker instances are limited; 37642ef: the unique clip paths / masks / filters /
+# paint servers of a tree are collected in linear time): must parse within the budget, whatever a class predicate says
+MUST_PASS = ('C01-fanout-marker.svg', 'C01-marker-bomb-k14.svg', 'C01-stroked-quad-huge.svg', 'C01-stroked-text-huge-font.svg',
+             'C01-marker-product.svg', 'C01-unique-defs-quadratic.svg', 'C01-unique-defs-quadratic-marker.svg',
+             'C01-unique-defs-quadratic-bomb.svg')
 
 # CPU-time budget of one Tree::from_data call: A + B * bytes (microseconds, thread CPU time measured inside the worker).
 # Noise floor measured over the whole corpus (1695 files) with 16 workers on a loaded machine (load average 60):
@@ -27,8 +34,32 @@ MUST_PASS = ('C01-fanout-marker.svg', 'C01-marker-bomb-k14.svg', 'C01-stroked-qu
 #   debug (opt-level 1 + overflow checks + debug assertions): 8.1 ms, 10.0 us/byte
 #   constant work allowed by the limits: use chain x512 (131 840 nodes) 0.50 s release / 0.72 s debug;
 #   use bombs stopped by the 1 000 000-node limit 0.20 - 0.28 s; deepest legal nesting 23 ms.
-# A = 7x the largest legal constant work, B = 45x the worst per-byte cost of the corpus.
-BUDGET = {'release': (4_000_000, 400), 'debug': (8_000_000, 800)}
+#   since the fixes 728fa22 / 37642ef (session 4) the budget is re-derived from what the limits of the code admit, measured alone on the
+#   reference machine (release / debug):
+#     100 000 nested marker instances (C01-marker-bomb-k14.svg)                        0.61 s / 0.68 s  (2.4 s before 37642ef)
+#     use bomb of a path with markers, 1 390 000 nodes from 1.4 KB                     3.7 s  / 3.9 s
+#     use bomb of rectangles with objectBoundingBox clip path + mask + pattern, 3.2 KB    4.9 s  / 5.7 s  (49 s before 37642ef)
+#     marker instances up to the 1 000 000-element limit (C01-marker-product.svg)      2.4 s  / 2.7 s
+#     960 000 objectBoundingBox-clipped rectangles from 64 KB (flat use), 1.9 M nodes  5.6 s  / 6.2 s   (87 us/byte)
+#     the same with marker paths from 99 KB, 2.9 M nodes                               7.7 s  / 9.0 s
+#   i.e. ~2.6-2.9 us per node of the result; a small document reaches ~1.2-2 M nodes (a use bomb spends half of the 1 000 000 svgtree
+#   nodes on its intermediate levels), a 64 KiB document ~3 M.  Text is the exception: ~150-200 us per text element, known class
+#   text-use-expansion.
+# A = 2x the largest constant work a small document can legally ask for (~6 s), B = 45x the worst per-byte cost of the corpus and 4.6x the
+# worst per-byte cost of a legal flat document.  (A was 4 s / 8 s = "7x the largest legal constant work" when only use chains and use
+# bombs of single rectangles had been measured; that was 1.6x the work of C01-marker-bomb-k14.svg and raised a false alarm, see below.)
+# A verdict is never taken from a measurement made while 16 workers share the cores (thread CPU time doubles on a loaded SMT machine:
+# 2.4 s -> 4.75 s was observed for C01-marker-bomb-k14.svg): an over-budget or timed-out document is measured again
+# alone (SOLO_RUNS runs, the fastest counts), against the budget scaled by the speed of the machine as measured on two
+# calibration documents at that moment (see `solo` in e2e).  Noise can only add CPU time, so the fastest solitary run is the
+# fairest measurement of the work the document asks for; a hang or an exponential expansion stays over any such budget.
+BUDGET = {'release': (12_000_000, 400), 'debug': (14_000_000, 800)}
+SOLO_RUNS = 3
+# calibration: (label of a generated / corpus document, CPU us alone on the reference machine: release, debug); the machine
+# factor is the smaller of the two ratios measured / reference, clamped to [1, 4] (a change to the repository that slows one of
+# the two documents down does not loosen the budget; one that slows both down by less than 4x loosens it by that factor at most)
+CALIBRATION = (('corpus/c01/C01-fanout-marker.svg', {'release': 320_000, 'debug': 375_000}),
+               ('use chain x512', {'release': 535_000, 'debug': 573_000}))
 
 
 def text_nesting_depth(data):
@@ -192,7 +223,7 @@ def fan_out_label_ok(label):
     """debug profile: skip the fan-out bombs that take minutes with debug assertions on"""
     m = re.search(r"fan-out (\d+)\^(\d+)", label)
     # ... and the arc witness, which hangs in every profile (one time limit in the release pass is enough)
-    return not (m and int(m.group(2)) > 8) and 'fanout' not in label and 'arc-huge' not in label
+    return not (m and int(m.group(2)) > 8) and 'fanout' not in label and 'arc-huge' not in label and 'text-use-bomb' not in label and 'text use bomb' not in label
 
 
 def f32_bound_class(data):
@@ -228,6 +259,52 @@ def textpath_huge(data):
             except (ValueError, OverflowError):
                 return True
     return False
+
+
+def expanded_text_count(data):
+    """number of <text> elements after `use` expansion: every text element counts once per reference path that reaches its
+    innermost enclosing element with an id through xlink:href / href references (the same path count as fan_out, over `use`
+    references only)"""
+    t = _text(data)
+    if '<text' not in t:
+        return 0
+    stack = []
+    owner_refs = {}
+    texts = {}
+    for tag in re.finditer(r'<(/?)([A-Za-z][A-Za-z0-9:]*)\b([^<>]*?)(/?)>', t):
+        close, name, attrs, selfc = tag.groups()
+        if close:
+            if stack:
+                stack.pop()
+            continue
+        idm = re.search(r'\bid="([^"]*)"', attrs)
+        my = idm.group(1) if idm else None
+        owner = my if my is not None else next((x for x in reversed(stack) if x is not None), None)
+        if name == 'use':
+            for r in re.findall(r'href="#([^"]+)"', attrs):
+                owner_refs.setdefault(owner, []).append(r)
+        if name == 'text':
+            texts[owner] = texts.get(owner, 0) + 1
+        if not selfc:
+            stack.append(my if my is not None else (stack[-1] if stack else None))
+    incoming = {}
+    for o, refs in owner_refs.items():
+        for r in refs:
+            incoming.setdefault(r, []).append(o)
+    memo = {}
+
+    def W(x, depth):
+        if x is None:
+            return 1
+        if x in memo:
+            return memo[x]
+        if depth > 60:
+            return 1
+        memo[x] = 1
+        s_ = sum(W(o, depth + 1) for o in incoming.get(x, []))
+        memo[x] = min(max(s_, 1), 10 ** 12)
+        return memo[x]
+    return sum(n * W(o, 0) for o, n in texts.items())
 
 
 def _text(data):
@@ -457,9 +534,82 @@ def run(ctx):
     worst = {'release': (0, None), 'debug': (0, None)}
     reported = set()
 
-    def judge(prof, i, o, res_):
+    def assess(prof, nbytes, r, factor=1.0, note=''):
+        """None, or what is wrong with the result r of one Tree::from_data call"""
+        A, B = BUDGET[prof]
+        if 'panic' in r:
+            return "panic (%s build) at %s: %s" % (prof, r.get('at'), r.get('panic'))
+        if 'crash' in r:
+            c = str(r['crash'])
+            return ("stack overflow / abort (%s, %s build): %s" % (c, prof, r.get('stderr', '')[:120])) if c.startswith('signal') else \
+                   ("no result within the time limit%s (%s build)" % (note, prof) if c == 'timeout' else "worker died (%s, %s build)" % (c, prof))
+        if r.get('r') in ('ok', 'err'):
+            cpu = r.get('cpu_us', 0)
+            if cpu > factor * (A + B * nbytes):
+                return "CPU time %.2f s%s for %d bytes exceeds the budget %.2f s (%s build)" % (cpu / 1e6, note, nbytes, factor * (A + B * nbytes) / 1e6, prof)
+            return None
+        return "unexpected harness result: %s" % str(r)[:120]
+
+    def timing(bad):
+        return bad is not None and ('CPU time' in bad or 'time limit' in bad)
+
+    solo_log = []
+
+    def machine_factor(prof):
+        """speed of this machine right now relative to the reference machine: each calibration document alone, fastest of
+        SOLO_RUNS runs; the smaller ratio counts; 1 when a calibration document does not parse"""
+        ratios = []
+        for lab, ref in CALIBRATION:
+            idx = next((k for k, x in enumerate(inputs) if x[0] == lab), None)
+            if idx is None:
+                continue
+            best = None
+            for _ in range(SOLO_RUNS):
+                try:
+                    rr = json.loads(batch(bins[prof], 'c01-parse', ["-\t%s" % inputs[idx][2]], per_item_timeout=20, chunk=1, grace=2, jobs=1)[0])
+                except (TypeError, ValueError):
+                    rr = {}
+                if rr.get('r') == 'ok' and (best is None or rr['cpu_us'] < best):
+                    best = rr['cpu_us']
+            if best is not None:
+                ratios.append(best / ref[prof])
+        f = min(ratios) if ratios else 1.0
+        return min(4.0, max(1.0, f)), ratios
+
+    def solo(prof, i, o, first):
+        """measure one (document, options) job again with nothing else running in this check: the fastest of SOLO_RUNS runs,
+        stopping at the first run within the scaled budget; a run that times out alone (time limit 3x the scaled budget, at
+        least the limit of the crowded run) ends the measurement"""
         label, stream, payload, nbytes, raw = inputs[i]
         A, B = BUDGET[prof]
+        f, ratios = machine_factor(prof)
+        limit = max(30 if prof == 'release' else 40, int(3 * f * (A + B * nbytes) / 1e6) + 1)
+        best, runs = None, 0
+        for _ in range(SOLO_RUNS):
+            runs += 1
+            try:
+                rr = json.loads(batch(bins[prof], 'c01-parse', ["%s\t%s" % (o, payload)], per_item_timeout=limit, chunk=1, grace=2, jobs=1)[0])
+            except (TypeError, ValueError):
+                rr = {'crash': 'unparsable output'}
+            if rr.get('r') not in ('ok', 'err'):
+                best = rr
+                break
+            if best is None or rr.get('cpu_us', 0) < best.get('cpu_us', 0):
+                best = rr
+            if assess(prof, nbytes, rr, f) is None:
+                break
+        solo_log.append(dict(profile=prof, input=label, options=o, crowded=first, solo=best, runs=runs, machine_factor=round(f, 2),
+                             calibration_ratios=[round(x, 2) for x in ratios], time_limit_s=limit))
+        ctx.log("solitary re-measurement (%s build, machine factor %.2f): %s: crowded %s -> alone %s (%d run(s))"
+                % (prof, f, label, json.dumps(first)[:90], json.dumps(best)[:90], runs))
+        return best, f, " (fastest of %d solitary run(s), time limit %d s, machine factor %.2f; first measured among 16 workers: %s)" \
+            % (runs, limit, f, ("%.2f s" % (first.get('cpu_us', 0) / 1e6)) if 'cpu_us' in first else str(first.get('crash')))
+
+    def known_timing_class(data):
+        return data is not None and (fan_out(data) >= 10000 or textpath_huge(data) or arc_huge(data) or expanded_text_count(data) >= TEXTBOMB_MIN)
+
+    def judge(prof, i, o, res_):
+        label, stream, payload, nbytes, raw = inputs[i]
         try:
             r = json.loads(res_)
         except (TypeError, ValueError):
@@ -469,23 +619,9 @@ def run(ctx):
         ctx.note_case("%s|%s|%s" % (prof, o, payload[:200] + str(len(payload))), nontrivial=(r.get('r') == 'ok'))
         oc = r.get('r') or ('panic' if 'panic' in r else 'crash')
         outcomes[stream + '/' + oc] = outcomes.get(stream + '/' + oc, 0) + 1
-        replay = dict(op='c01-parse', profile=prof, options=o, label=label, doc=payload if len(payload) < 200000 else payload[:200000],
-                      result=r, cmd="printf '0\\t<options>\\t<doc>\\n' | harness/target/%s/rvh c01-parse" % prof)
-        bad = None
-        if 'panic' in r:
-            bad = "panic (%s build) at %s: %s" % (prof, r.get('at'), r.get('panic'))
-        elif 'crash' in r:
-            c = str(r['crash'])
-            bad = ("stack overflow / abort (%s, %s build): %s" % (c, prof, r.get('stderr', '')[:120])) if c.startswith('signal') else \
-                  ("no result within the time limit (%s build)" % prof if c == 'timeout' else "worker died (%s, %s build)" % (c, prof))
-        elif r.get('r') in ('ok', 'err'):
-            cpu = r.get('cpu_us', 0)
-            if cpu > worst[prof][0]:
-                worst[prof] = (cpu, label)
-            if cpu > A + B * nbytes:
-                bad = "CPU time %.2f s for %d bytes exceeds the budget %.2f s (%s build)" % (cpu / 1e6, nbytes, (A + B * nbytes) / 1e6, prof)
-        else:
-            bad = "unexpected harness result: %s" % str(r)[:120]
+        if r.get('r') in ('ok', 'err') and r.get('cpu_us', 0) > worst[prof][0]:
+            worst[prof] = (r.get('cpu_us', 0), label)
+        bad = assess(prof, nbytes, r)
         if bad is None:
             return
         data = raw
@@ -496,14 +632,26 @@ def run(ctx):
                 data = gzip.decompress(data)
             except Exception:
                 pass
+        must_pass = any(n in label for n in MUST_PASS)
+        if timing(bad) and (must_pass or not known_timing_class(data)) and len(solo_log) < 40:
+            # a time measured among 16 workers is no verdict: measure alone, against the budget of this machine
+            r, f, note = solo(prof, i, o, r)
+            bad = assess(prof, nbytes, r, f, note)
+            if bad is None:
+                outcomes[stream + '/within-budget-alone'] = outcomes.get(stream + '/within-budget-alone', 0) + 1
+                return
+        replay = dict(op='c01-parse', profile=prof, options=o, label=label, doc=payload if len(payload) < 200000 else payload[:200000],
+                      result=r, cmd="printf '0\\t<options>\\t<doc>\\n' | harness/target/%s/rvh c01-parse" % prof)
         sig = (bad.split(':')[0][:40], label)
         if sig in reported:
             return
         reported.add(sig)
         text = "%s on %s [%s]" % (bad, label, stream)
-        if any(n in label for n in MUST_PASS):
+        if must_pass:
             ctx.violation(text + " (witness of a fixed finding: must pass)", replay)
-        elif data is not None and ('CPU time' in bad or 'time limit' in bad) and fan_out(data) >= 10000:
+        elif data is not None and ('CPU time' in bad or 'time limit' in bad or ('signal6' in bad and 'memory allocation' in bad)) \
+                and fan_out(data) >= 10000:
+            # exponential work and memory: over the time budget, or the 3 GiB address space of the worker exhausted
             ctx.known_or_violation(KNOWN_FANOUT, text, replay)
         elif data is not None and ('time limit' in bad or 'CPU time' in bad or ('kurbo' in bad and 'shift left with overflow' in bad)) \
                 and textpath_huge(data):
@@ -514,6 +662,8 @@ def run(ctx):
             ctx.known_or_violation(KNOWN_TORIGIN, text, replay)
         elif data is not None and ('time limit' in bad or 'CPU time' in bad or 'signal6' in bad) and arc_huge(data):
             ctx.known_or_violation(KNOWN_ARC, text, replay)
+        elif data is not None and ('time limit' in bad or 'CPU time' in bad) and expanded_text_count(data) >= TEXTBOMB_MIN:
+            ctx.known_or_violation(KNOWN_TEXTBOMB, text, replay)
         elif data is not None and 'transform_origin.rs' in bad and origin_dangling_exp(data):
             ctx.known_or_violation(KNOWN_TORIGIN_EXP, text, replay)
         else:
@@ -535,7 +685,7 @@ def run(ctx):
         # heavy inputs: one process each so that a hang costs one time limit only
         hsub = hjobs if prof == 'release' else [j for j in hjobs if fan_out_label_ok(inputs[j[0]][0])]
         hitems = ["%s\t%s" % (o, inputs[i][2]) for i, o in hsub]
-        houts = batch(bins[prof], 'c01-parse', hitems, per_item_timeout=(18 if prof == 'release' else 30) if quick else 45, chunk=1, grace=2)
+        houts = batch(bins[prof], 'c01-parse', hitems, per_item_timeout=(30 if prof == 'release' else 40) if quick else 60, chunk=1, grace=2)
         ctx.log("%s: %d heavy jobs done" % (prof, len(hsub)))
         for (i, o), res_ in zip(hsub, houts):
             judge(prof, i, o, res_)
@@ -556,6 +706,7 @@ def run(ctx):
     ctx.cov['e2e_streams'] = hist
     ctx.cov['e2e_outcomes'] = outcomes
     ctx.cov['worst_cpu_us'] = {k: dict(cpu_us=v[0], input=v[1]) for k, v in worst.items()}
+    ctx.cov['solitary_remeasurements'] = solo_log
     ctx.add_sample(dict(op='c01-parse', label=inputs[len(corpus) + 5][0], doc=inputs[len(corpus) + 5][2][:400]))
     ctx.add_sample(dict(op='c01-parse', label=inputs[-3][0], doc=inputs[-3][2][:400]))
 
